@@ -13,7 +13,9 @@ mod report;
 mod rnd;
 mod rt;
 mod proxy;
+mod scen_c15;
 mod scen_link;
+mod scen_local;
 mod scen_tcp;
 
 use std::time::Instant;
@@ -27,6 +29,8 @@ fn generate(prop: &str, seed: u64, thorough: bool) -> Option<Plan> {
         "C01" => Some(scen_tcp::gen_c01(seed, thorough)),
         "C04" => Some(scen_link::gen_c04(seed, thorough)),
         "C05" => Some(scen_link::gen_c05(seed, thorough)),
+        "C13" => Some(scen_local::gen_c13(seed, thorough)),
+        "C15" => Some(scen_c15::gen_c15(seed, thorough)),
         _ => None,
     }
 }
@@ -36,6 +40,8 @@ fn execute(plan: &Plan) -> Outcome {
         "tcp-system" => scen_tcp::execute_c01(plan),
         "link-seg" => scen_link::execute_c04(plan),
         "link-tamper" => scen_link::execute_c05(plan),
+        "local-hs" => scen_local::execute_c13(plan),
+        "teardown" => scen_c15::execute_c15(plan),
         other => {
             eprintln!("unknown scenario {other}");
             std::process::exit(2);
